@@ -149,6 +149,30 @@ func c20LookupResp(p reg.Physical) string {
 	return fmt.Sprintf("%s:%d:%d:%d:%d:%d", c20Tok(p.Asm()), uint8(p.Kind()), uint16(p.PhysicalIndex()), p.Mask(), p.Size(), uint32(p.ID()))
 }
 
+// c20Ranks renders a sequence of allocated virtual registers up to the
+// numbering policy of the Collection: per kind, the rank of each id in order of
+// first appearance (the property pins distinctness, not the index values).
+func c20Ranks(vs []reg.Virtual) string {
+	rank := map[reg.ID]int{}
+	next := map[reg.Kind]int{}
+	out := make([]string, len(vs))
+	for i, v := range vs {
+		rk, ok := rank[v.ID()]
+		if !ok {
+			rk = next[v.Kind()]
+			next[v.Kind()]++
+			rank[v.ID()] = rk
+		}
+		out[i] = fmt.Sprintf("%d:%d:%d", uint8(v.Kind()), rk, v.Mask())
+	}
+	return strings.Join(out, " ")
+}
+
+// c20VasReq: the start register of a `vas` request as the implementation reports it.
+func c20VasReq(v reg.Virtual) string {
+	return fmt.Sprintf("vas %d %d %d", uint8(v.Kind()), uint16(v.VirtualIndex()), v.Mask())
+}
+
 func init() {
 	register("c20", "register model: views, conversions, lookups, ids, specs, classification (exhaustive) + collections", func(args []string) error {
 		f := newStdFlags("c20")
@@ -324,7 +348,8 @@ func init() {
 		for _, ctor := range c20Ctors {
 			for _, nprev := range []int{0, 1, 255, 256, 65535} {
 				v := virtAt(ctor, nprev)
-				emit("vas", fmt.Sprintf("vas %s %d 0", ctor, nprev), c20Virt(v)+":"+c20Bits(v))
+				emit("accept-ctor", fmt.Sprintf("accept-ctor %s %d %d %d %d", ctor, uint8(v.Kind()), v.Mask(), v.Size(), uint32(v.ID())), "ok")
+				emit("vas", c20VasReq(v)+" 0", c20Virt(v)+":"+c20Bits(v))
 				emit("accept-vclass", fmt.Sprintf("accept-vclass %d %d %s", uint8(v.Kind()), v.Mask(), c20Bits(v)), "ok")
 				for _, m := range c20Methods(v) {
 					res, _, panicked := c20Call(v, m)
@@ -333,7 +358,7 @@ func init() {
 						step = c20Virt(res) + ":" + c20Bits(res)
 						emit("accept-vclass", fmt.Sprintf("accept-vclass %d %d %s", uint8(res.Kind()), res.Mask(), c20Bits(res)), "ok")
 					}
-					emit("vas", fmt.Sprintf("vas %s %d 1 %s", ctor, nprev, m), c20Virt(v)+":"+c20Bits(v)+" "+step)
+					emit("vas", c20VasReq(v)+" 1 "+m, c20Virt(v)+":"+c20Bits(v)+" "+step)
 					emit("accept-vas", fmt.Sprintf("accept-vas %d %s %s", uint32(v.ID()), m, c20Res(res, panicked)), "ok")
 				}
 			}
@@ -348,8 +373,9 @@ func init() {
 			if virt {
 				ctor := pick(r, c20Ctors)
 				nprev := pick(r, []int{0, 1, 2, 7, 300, 65535})
-				cur = virtAt(ctor, nprev)
-				req = fmt.Sprintf("vas %s %d", ctor, nprev)
+				v := virtAt(ctor, nprev)
+				cur = v
+				req = c20VasReq(v)
 				resp = append(resp, c20Virt(cur)+":"+c20Bits(cur))
 			} else {
 				i := r.intn(len(all))
@@ -396,15 +422,13 @@ func init() {
 			}
 			ctors := make([]string, l)
 			vs := make([]reg.Virtual, l)
-			resp := make([]string, l)
 			perKind := map[reg.Kind][]int{}
 			for i := range ctors {
 				ctors[i] = pick(r, c20Ctors)
 				vs[i] = c20Alloc(c, ctors[i])
-				resp[i] = fmt.Sprintf("%d:%d", uint32(vs[i].ID()), vs[i].Mask())
 				perKind[vs[i].Kind()] = append(perKind[vs[i].Kind()], i)
 			}
-			emit("coll", fmt.Sprintf("coll %d %s", l, strings.Join(ctors, " ")), strings.Join(resp, " "))
+			emit("coll", fmt.Sprintf("coll %d %s", l, strings.Join(ctors, " ")), c20Ranks(vs))
 			// first colliding pair if any, else sampled pairs; (i, j) are per-kind allocation numbers
 			for _, k := range []reg.Kind{reg.KindGP, reg.KindVector, reg.KindOpmask} {
 				idxs := perKind[k]
@@ -433,7 +457,7 @@ func init() {
 		for _, run := range []struct {
 			ctors []string
 			count int
-		}{{[]string{"GP64"}, 65536}, {[]string{"GP64"}, 65537}, {[]string{"XMM", "YMM", "ZMM"}, 65537}, {[]string{"K"}, 65537}, {[]string{"GP8L", "GP8H", "GP16", "GP32"}, 65537}} {
+		}{{[]string{"GP64"}, 65536}, {[]string{"XMM", "ZMM"}, 65536}, {[]string{"K"}, 65536}, {[]string{"GP64"}, 65537}, {[]string{"XMM", "YMM", "ZMM"}, 65537}, {[]string{"K"}, 65537}, {[]string{"GP8L", "GP8H", "GP16", "GP32"}, 65537}} {
 			c := reg.NewCollection()
 			ids := make([]reg.ID, run.count)
 			var kind reg.Kind
@@ -441,13 +465,13 @@ func init() {
 				v := c20Alloc(c, run.ctors[i%len(run.ctors)])
 				ids[i], kind = v.ID(), v.Kind()
 			}
-			qs := []int{0, 1, 65535, run.count - 1, r.intn(run.count), r.intn(run.count)}
-			var qreq, qresp []string
-			for _, q := range qs {
-				qreq = append(qreq, itoa(q))
-				qresp = append(qresp, fmt.Sprintf("%d", uint32(ids[q])))
+			if run.count <= 65536 { // exact comparison only inside the guard of virt_fresh; beyond it the acceptor speaks (F13)
+				distinct := map[reg.ID]bool{}
+				for _, id := range ids {
+					distinct[id] = true
+				}
+				emit("collrun", fmt.Sprintf("collrun %d %s %d", len(run.ctors), strings.Join(run.ctors, " "), run.count), fmt.Sprintf("distinct=%d", len(distinct)))
 			}
-			emit("collrun", fmt.Sprintf("collrun %d %s %d %d %s", len(run.ctors), strings.Join(run.ctors, " "), run.count, len(qs), strings.Join(qreq, " ")), strings.Join(qresp, " "))
 			seen := make(map[reg.ID]int, run.count)
 			dup := false
 			for j, id := range ids {
@@ -547,24 +571,42 @@ func c20Replay(all []reg.Physical, ts []string, emit func(kind, req, resp string
 			emit("pas", line, strings.Join(append([]string{c20Phys(p)}, chain(p, false, ts[3:])...), " "))
 		}
 	case "vas":
-		if len(ts) >= 4 && knownCtor(ts[1]) && arg(2) >= 0 && arg(2) <= 70000 {
-			v := virtAt(ts[1], arg(2))
-			emit("vas", line, strings.Join(append([]string{c20Virt(v) + ":" + c20Bits(v)}, chain(v, true, ts[4:])...), " "))
+		// vas <kind> <idx> <mask> <n> methods…: rebuild a register with that kind, index and mask through a Collection
+		if len(ts) < 5 || arg(2) < 0 || arg(2) > 65535 {
+			return
+		}
+		for _, ctor := range c20Ctors {
+			c := reg.NewCollection()
+			v := c20Alloc(c, ctor)
+			if int(v.Kind()) != arg(1) || int(v.Mask()) != arg(3) {
+				continue
+			}
+			for n := 0; n < 70000 && int(v.VirtualIndex()) != arg(2); n++ {
+				v = c20Alloc(c, ctor)
+			}
+			if int(v.VirtualIndex()) == arg(2) {
+				emit("vas", c20VasReq(v)+" "+strings.Join(ts[4:], " "), strings.Join(append([]string{c20Virt(v) + ":" + c20Bits(v)}, chain(v, true, ts[5:])...), " "))
+			}
+			break
+		}
+	case "accept-ctor":
+		if len(ts) >= 2 && knownCtor(ts[1]) {
+			v := virtAt(ts[1], 0)
+			emit("accept-ctor", fmt.Sprintf("accept-ctor %s %d %d %d %d", ts[1], uint8(v.Kind()), v.Mask(), v.Size(), uint32(v.ID())), "ok")
 		}
 	case "coll":
 		c := reg.NewCollection()
-		var resp []string
+		var vs []reg.Virtual
 		for _, ctor := range ts[2:] {
 			if !knownCtor(ctor) {
 				return
 			}
-			v := c20Alloc(c, ctor)
-			resp = append(resp, fmt.Sprintf("%d:%d", uint32(v.ID()), v.Mask()))
+			vs = append(vs, c20Alloc(c, ctor))
 		}
-		emit("coll", line, strings.Join(resp, " "))
+		emit("coll", line, c20Ranks(vs))
 	case "collrun":
 		nc := arg(1)
-		if nc <= 0 || len(ts) < 4+nc {
+		if nc <= 0 || len(ts) < 3+nc {
 			return
 		}
 		ctors := ts[2 : 2+nc]
@@ -578,19 +620,11 @@ func c20Replay(all []reg.Physical, ts []string, emit func(kind, req, resp string
 			return
 		}
 		c := reg.NewCollection()
-		ids := make([]reg.ID, count)
-		for i := range ids {
-			ids[i] = c20Alloc(c, ctors[i%nc]).ID()
+		distinct := map[reg.ID]bool{}
+		for i := 0; i < count; i++ {
+			distinct[c20Alloc(c, ctors[i%nc]).ID()] = true
 		}
-		var resp []string
-		for _, q := range ts[4+nc:] {
-			if n := atoi(q); n >= 0 && n < count {
-				resp = append(resp, fmt.Sprintf("%d", uint32(ids[n])))
-			} else {
-				return
-			}
-		}
-		emit("collrun", line, strings.Join(resp, " "))
+		emit("collrun", line, fmt.Sprintf("distinct=%d", len(distinct)))
 	case "lookupid":
 		if arg(1) >= 0 && arg(2) >= 0 {
 			emit("lookupid", line, c20LookupResp(reg.LookupID(reg.ID(arg(1)), reg.Spec(arg(2)))))
